@@ -279,27 +279,63 @@ class MdSim(object):
         if doc_expired:
             must_fail.append("document-expired")
         verifying = typ == "remote" and ev.get("cert_conf") is not None and sign_key is not None
-        if verifying and (ev["cert_conf"] != sign_key):
+        if verifying and fault in ("garbled", "truncated"):
+            # ground truth for the bytes as delivered: does the document still carry a ds:Signature (a flipped
+            # byte in the namespace declaration turns it into an unsigned document, which the store accepts by
+            # design), and does that signature still verify (a flip in insignificant base64 bits changes nothing)?
+            still_signed, still_valid = False, False
+            try:
+                r_ = ET.fromstring(body)
+                still_signed = r_.find(q(DS, "Signature")) is not None
+                if still_signed:
+                    from engines.fedsim import fixture_pub
+                    node = "%s:%s" % (MD, "EntitiesDescriptor" if doc["wrapper"] != "entity" else "EntityDescriptor")
+                    still_valid = simxmlsec.verify_document(body, fixture_pub(ev["cert_conf"]), node, "ID", None)[0]
+            except Exception:
+                pass
+            verifying = still_signed
+            if still_signed and not still_valid:
+                must_fail.append("signed-document-corrupted")
+        elif verifying and (ev["cert_conf"] != sign_key):
             must_fail.append("signature-under-wrong-cert")
         if verifying and tf:
             must_fail.append("verification-tool-fault")
-        if verifying and fault in ("garbled", "truncated"):
-            must_fail.append("signed-document-corrupted")
         clean = not fault and not tf
+        corrupted = fault in ("garbled", "truncated")
+        # (when the bytes were corrupted the corruption may have hit the validUntil attribute: expiry is not
+        # demanded then; the signature rules, decided from the bytes as delivered, still are)
+        hard = [m for m in must_fail if not (corrupted and m == "document-expired")]
+        if hard:
+            # What matters is not *how* the load ends (an exception, or a quiet return with nothing parsed) but
+            # that a source that must not be trusted contributes no entity.
+            elsewhere = set()
+            for k_, ents_ in self.model.items():
+                if k_ != self._mkey(key) and ents_:
+                    elsewhere.update(ents_.keys())
+            if any(v is None for v in self.model.values()):
+                elsewhere = None            # a source with unknown contents may hold anything
+            try:
+                served = set(self.store.keys())
+            except Exception:
+                served = set()
+            leaked = [e["id"] for e in doc["entities"] if e["id"] in served
+                      and elsewhere is not None and e["id"] not in elsewhere
+                      and not (rec["loaded"] is False and e["id"] in (self.model.get(self._mkey(key)) or {}))]
+            self.count("oracle.untrusted-source-judged")
+            if leaked:
+                self.viol(i, "load-succeeded." + hard[0].split(":")[0],
+                          "type=%s reasons=%s entities served although the source must not be trusted: %s" % (typ, hard, leaked[:3]))
+                return
+            if rec["loaded"]:
+                self.count("load.quiet-nothing")
+                self.model[self._mkey(key)] = {}        # the (re)load replaced the source by an empty one
+            else:
+                self.count("load.failed." + rec.get("exc", "?"))
+            return
         if rec["loaded"]:
             self.count("load.ok")
-            if must_fail and fault not in ("garbled", "truncated"):
-                self.viol(i, "load-succeeded." + must_fail[0].split(":")[0],
-                          "type=%s reasons=%s" % (typ, must_fail))
-                return
-            if fault in ("garbled", "truncated"):
+            if corrupted:
                 # the parse may legitimately have produced something else or nothing: contents unspecified
-                # (the corruption may have hit the validUntil attribute: expiry is not demanded here)
-                hard = [m for m in must_fail if m in ("signed-document-corrupted", "signature-under-wrong-cert",
-                                                      "verification-tool-fault")]
-                if hard:
-                    self.viol(i, "load-succeeded." + hard[0], "type=%s reasons=%s" % (typ, must_fail))
-                    return
                 self.model[self._mkey(key)] = None       # unknown contents: exclude from exactness checks
                 self.count("load.ok.corrupted-unsigned")
                 return
